@@ -488,6 +488,23 @@ def _sym_of_call(p, ev):
     return ""
 
 
+def expansion_is_deferred(P, rep, key, consequence):
+    """A macro call assembles what its body would assemble *at that point*.  Where the line loop only records the call and the body is
+    read later (pass 0, after the whole text has been parsed), everything that is decided while reading lines - conditionals on
+    definitions, .equ/.define, messages, includes - happens for the body after it has happened for every line of the file."""
+    loop = "parser::parse_iter"
+    expand = "builder::pass0::macro_expand"
+    if loop not in P.body or expand not in P.body:
+        rep.unprovable(key, "parse_iter / macro_expand not found")
+        return
+    in_line_loop = expand in P.reachable([loop])
+    later = expand in P.reachable(["builder::pass0::build_pass_0"])
+    reparse = loop in P.reachable([expand])
+    deferred = (not in_line_loop) and later and reparse
+    rep.ob(key, not deferred, "macro bodies are read where the call stands" if not deferred else
+           "the line loop only records a macro call; its body is read in pass 0, after the whole file has been parsed, through the same line loop and against the final tables: %s" % consequence)
+
+
 def seed_of_expansion(P):
     """the Segment value macro_expand starts the body in: {'address': constant or None, 'type_from_last': bool}"""
     key = "builder::pass0::macro_expand"
@@ -691,4 +708,5 @@ def run(tier):
                "errors of the re-parsed body are not propagated")
     else:
         rep.unprovable("C09.undefined", "macro_expand not found")
+    expansion_is_deferred(P, rep, "C09.timing|body-read-after-parse", "a body sees `.define`/`.equ` lines that stand behind the call (`.ifdef FLAG` in a body called before `#define FLAG` takes the defined arm), and a body cannot use a `.equ` that the same body defines for the lines after the call only at parse time (`m` defining BASE, `.org BASE` after the call fails)")
     return rep
